@@ -365,6 +365,8 @@ class PopAll(Terminal):
 
         pos = gen.new_temp("pos")
         gen.writeln(f"{pos} = state.pos")
+        # An empty stack matches without consuming anything.
+        gen.writeln(f"{matched_var} = True")
 
         peeked = gen.new_temp("peek")
         gen.writeln(f"for {peeked} in reversed(state.user_stack):")
@@ -379,8 +381,11 @@ class PopAll(Terminal):
                 gen.writeln(f"state.fail({peeked})")
                 gen.writeln("break")
 
-        gen.writeln("state.user_stack.clear()")
-        gen.writeln(f"state.pos = {pos}")
+        # Only empty the stack and advance if every entry matched.
+        gen.writeln(f"if {matched_var}:")
+        with gen.block():
+            gen.writeln("state.user_stack.clear()")
+            gen.writeln(f"state.pos = {pos}")
 
         gen.writeln("# </PopAll>")
 
